@@ -39,6 +39,9 @@ IndexOps  == {"insert_str", "remove", "truncate"}
 TextOK(p, tx1) ==                                                              \* C01
   \A h \in PH : /\ (tx1[h] = DeadTx) <=> (p.hd[h].k = "D")
                 /\ p.hd[h].k # "D" => (p.hd[h].text = tx1[h] /\ p.hd[h].len = Len(tx1[h]))
+                \* rd names the readers (as_str, len, is_empty, Deref, AsRef, Borrow, Into<String>) that
+                \* disagree with as_bytes; all of them read the one text
+                /\ p.hd[h].rd = ""
 Utf8OK(p)  == \A h \in Live(p) : ValidUtf8(p.hd[h].text)                      \* C07
 CapOK(p)   == \A h \in Live(p) : p.hd[h].cap >= p.hd[h].len                   \* C11
 RcOK(p)    == \A h \in Live(p) : p.hd[h].k = "H" =>                           \* C03
